@@ -680,3 +680,57 @@ Proof.
     + intros Hi. apply object_indices_spec. apply Mnodes. exact Hi.
     + intros Hi. apply Mnodes. apply object_indices_spec. exact Hi.
 Qed.
+
+(* ================================================================== Part 2: sector allocation *)
+(* chains in relic's signed tables *)
+Inductive schain (t : list Z) : Z -> list Z -> Prop :=
+| schain_end : schain t secid_eoc []
+| schain_step s l : 0 <= s < zlen t -> schain t (sget t s) l -> schain t s (s :: l).
+
+Lemma set_nat_length {X} n (v : X) l : length (set_nat n v l) = length l.
+Proof. revert n; induction l as [|x r IH]; intros [|n]; cbn; auto. Qed.
+Lemma sset_zlen t i v : zlen (sset t i v) = zlen t.
+Proof. unfold zlen, sset. now rewrite set_nat_length. Qed.
+Lemma set_nat_same {X} n (v d : X) l : (n < length l)%nat -> nth n (set_nat n v l) d = v.
+Proof. revert n; induction l as [|x r IH]; intros [|n]; cbn; intros H; try lia; auto. apply IH. lia. Qed.
+Lemma set_nat_other {X} n m (v d : X) l : n <> m -> nth m (set_nat n v l) d = nth m l d.
+Proof. revert n m; induction l as [|x r IH]; intros [|n] [|m]; cbn; intros H; try congruence; auto. Qed.
+Lemma sget_sset_same t i v : 0 <= i < zlen t -> sget (sset t i v) i = v.
+Proof. intros H. unfold sget, sset. apply set_nat_same. unfold zlen in H. lia. Qed.
+Lemma sget_sset_other t i j v : 0 <= i -> 0 <= j -> i <> j -> sget (sset t i v) j = sget t j.
+Proof. intros Hi Hj H. unfold sget, sset. apply set_nat_other. lia. Qed.
+
+(* ---- the scan loop *)
+Lemma scan_free_spec t : forall i count l c, 0 < count -> scan_free i count t = (l, c) ->
+  0 <= c /\ zlen l + c = count /\
+  Forall (fun j => i <= j < i + zlen t /\ nth (Z.to_nat (j - i)) t 0 = secid_free) l /\
+  (forall j, In j l -> i <= j) /\ NoDup l.
+Proof.
+  induction t as [|x r IH]; intros i count l c Hc H; cbn [scan_free] in H.
+  - inversion H; subst. cbn. repeat split; try lia; try constructor. intros j [].
+  - rewrite zlen_cons. pose proof (zlen_nonneg r) as Hr. unfold mfs_skip in H.
+    destruct (negb (x =? -1)) eqn:E.
+    + destruct (IH _ _ _ _ Hc H) as (H1 & H2 & H3 & H4 & H5). repeat split; try assumption.
+      * eapply Forall_impl; [|exact H3]. cbn. intros j [Hj Hv]. split; [lia|].
+        replace (Z.to_nat (j - i)) with (S (Z.to_nat (j - (i + 1)))) by lia. exact Hv.
+      * intros j Hj. specialize (H4 j Hj). lia.
+    + apply negb_false_iff in E. apply Z.eqb_eq in E. subst x.
+      destruct (count - 1 =? 0) eqn:E1.
+      * inversion H; subst. unfold zlen at 1. cbn [length]. repeat split; try lia.
+        -- constructor; [|constructor]. split; [lia|]. rewrite Z.sub_diag. reflexivity.
+        -- intros j [->|[]]. lia.
+        -- constructor; [intros []|constructor].
+      * destruct (scan_free (i + 1) (count - 1) r) as [l' c'] eqn:Es. inversion H; subst.
+        assert (Hc' : 0 < count - 1) by lia.
+        destruct (IH _ _ _ _ Hc' Es) as (H1 & H2 & H3 & H4 & H5). rewrite zlen_cons. repeat split; try lia.
+        -- constructor; [split; [lia|]; rewrite Z.sub_diag; reflexivity|].
+           eapply Forall_impl; [|exact H3]. cbn. intros j [Hj Hv]. split; [lia|].
+           replace (Z.to_nat (j - i)) with (S (Z.to_nat (j - (i + 1)))) by lia. exact Hv.
+        -- intros j [->|Hj]; [lia|]. specialize (H4 j Hj). lia.
+        -- constructor; [|exact H5]. intros Hin. specialize (H4 _ Hin). lia.
+Qed.
+
+Lemma nth_app_repeat_free (t : list Z) k j : (length t <= j < length t + k)%nat -> nth j (t ++ repeat secid_free k) 0 = secid_free.
+Proof.
+  intros H. rewrite app_nth2 by lia. apply nth_repeat_lt'. 
+Abort.
